@@ -144,38 +144,53 @@ def apply_mutation(v, m, msg, kind, pick):
     if kind == 'remove-required':
         parent, name, child = site
         parent.children.remove(child)
-        return ('removed required %s from %r' % (name, parent), name)
+        return ('removed required %s from %r' % (name, parent), name, lambda: parent.add(child))
     if kind == 'exceed-max':
         parent, name, n, ck = site
+        new = []
         for _ in range(n):
             if ck == 'SEG':
-                parent.add_segment(name)
+                new.append(parent.add_segment(name))
             elif ck == 'GRP':
-                parent.add_group(name)
+                new.append(parent.add_group(name))
             elif ck == 'FIE':
-                parent.add_field(name)
+                new.append(parent.add_field(name))
             else:
-                parent.add_component(name)
-        return ('added %d x %s to %r (beyond its maximum)' % (n, name, parent), name)
+                new.append(parent.add_component(name))
+        return ('added %d x %s to %r (beyond its maximum)' % (n, name, parent), name, lambda: [parent.children.remove(c) for c in new])
     if kind == 'foreign-segment':
         parent, _ = site
         declared = set(parent.ordered_children or ())
         foreign = [s for s in T.segments(v) if s not in declared and s != 'MSH']
         name = foreign[pick % len(foreign)]
-        parent.add_segment(name)
-        return ('added foreign segment %s to %r' % (name, parent), name)
+        added = parent.add_segment(name)
+        how = pick % 3
+        def undo():
+            if how == 0:
+                parent.children.remove(added)
+            elif how == 1:
+                delattr(parent, name)
+            else:
+                # the foreign segment moves to a message of its own
+                from hl7apy.core import Message
+                Message(version=v, validation_level=TOL).add(added)
+        return ('added foreign segment %s to %r' % (name, parent), name, undo)
     if kind == 'unknown-field':
         seg, last = site
         name, fields = R.split_segment(seg.to_er7(), R.DEFAULT_EC)
         have = max(fields) if fields else 0
-        seg.value = seg.to_er7() + '|' * (last - have + 1 + pick % 3) + 'zz'
-        return ('unnamed field after the last defined one of %r' % seg, seg.name)
+        original = seg.to_er7()
+        seg.value = original + '|' * (last - have + 1 + pick % 3) + 'zz'
+
+        def undo():
+            seg.value = original
+        return ('unnamed field after the last defined one of %r' % seg, seg.name, undo)
     if kind == 'unknown-component':
         field, _ = site
         c = Component(datatype='ST', version=v, validation_level=TOL)
         c.value = 'zz'
         field.add(c)
-        return ('unnamed component in %r' % field, field.name)
+        return ('unnamed component in %r' % field, field.name, lambda: field.children.remove(c))
     raise ValueError(kind)
 
 
@@ -271,12 +286,21 @@ def check(case, acc=None):
             if errs:
                 out.append(('C04-conforming-instance-rejected:%s' % case['route'], '%s %s: %s\n%r' % (v, m, errs[:3], text[:500])))
         else:
-            desc, needle = applied
+            desc, needle, undo = applied
             case['_applied'] = kind
             if rep.is_valid or not errs:
                 out.append(('C04-defect-not-reported:%s' % kind, '%s %s: %s -> validate() reports no error' % (v, m, desc)))
             elif not any(needle in e for e in errs):
                 out.append(('C04-defect-not-named:%s' % kind, '%s %s: %s -> errors %r do not name %r' % (v, m, desc, errs[:4], needle)))
+            if not out:
+                # history: the defect is taken back through the API - the instance satisfies its structure again and must validate
+                try:
+                    undo()
+                    errs2 = [str(e) for e in msg.validate(return_errors=True).errors]
+                except Exception as e:
+                    return out + [('C04-undo-raises:%s:%s' % (kind, type(e).__name__), '%s %s: %s, then undone: %s' % (v, m, desc, _exc(e)))]
+                if errs2:
+                    out.append(('C04-repaired-instance-rejected:%s' % kind, '%s %s: %s, then undone -> errors %r' % (v, m, desc, errs2[:3])))
     return out
 
 
@@ -359,6 +383,72 @@ def check_dup_required(v, m):
     return []
 
 
+def dup_sibling_structures():
+    """(version, structure) whose table lists one child name twice among the children of one parent"""
+    out = []
+
+    def rec(ref):
+        seen = set()
+        for (n, r, card, kind) in T.struct_children(ref):
+            if n in seen:
+                return True
+            seen.add(n)
+            if kind == 'GRP' and rec(r):
+                return True
+        return False
+    for v in T.VERSIONS:
+        for m in T.messages(v):
+            try:
+                if rec(T.message_ref(v, m)):
+                    out.append((v, m))
+            except Exception:
+                pass
+    return out
+
+
+def check_dup_removal(v, m):
+    """a name listed twice under one parent, required by at least one of its rows: with no child of that name at all the
+    validator must report it, whichever of the rows carries the requirement"""
+    from hl7apy.core import Message
+    out = []
+    try:
+        msg = Message(m, version=v, validation_level=TOL)
+        msg.msh.msh_9 = S.msh9_text(v, m, R.DEFAULT_EC)
+        msg.msh.msh_10, msg.msh.msh_11 = '1', 'P'
+        spots = []
+
+        def rec(parent, r):
+            kids = T.struct_children(r)
+            names = [k[0] for k in kids]
+            dups = sorted(set(n for n in names if names.count(n) > 1 and any(k[2][0] >= 1 for k in kids if k[0] == n)))
+            added = set()
+            for (n, cr, (mn, mx), kind) in kids:
+                if n == 'MSH':
+                    continue
+                if kind == 'GRP':
+                    rec(parent.add_group(n), cr)                 # every group once, so that every parent with such rows exists
+                elif (mn >= 1 or (not added and not any(k[2][0] >= 1 for k in kids))) and n not in T.PSEUDO_SEGMENTS and not T.segment_defect(v, n) \
+                        and n in T.lib(v).SEGMENTS and n not in added:
+                    parent.add_segment(n)
+                    added.add(n)
+            for n in dups:
+                spots.append((parent, n))
+        rec(msg, T.message_ref(v, m))
+        for parent, n in spots:
+            victims = [c for c in parent.children if c.name == n]
+            for c in victims:
+                parent.children.remove(c)
+            errs = [str(e) for e in msg.validate(return_errors=True).errors]
+            if not any(n in e and 'issing' in e for e in errs):
+                out.append(('C04-missing-required-child-listed-twice-not-reported', '%s %s: no %s left under %s (required by one of its two rows), errors %r' % (
+                    v, m, n, parent.name, errs[:4])))
+            for c in victims:
+                parent.add(c)
+    except Exception as e:
+        return [('C04-dup-removal-raises:%s' % type(e).__name__, '%s %s: %s' % (v, m, _exc(e)))]
+    return out
+
+
 def message_cells():
     return [(v, m) for v in T.VERSIONS for m in T.messages(v) if G.usable(v, m)]
 
@@ -372,6 +462,11 @@ def run_shard(shard, acc):
                     for sig, detail in check_dup_required(v, m):
                         acc.violation(sig, case, detail)
                     acc.case(None, True, sample=case, label='dup-required-sibling', enumerated=True)
+        for v, m in dup_sibling_structures():
+            case = {'kind': 'dup-removal', 'v': v, 'm': m}
+            for sig, detail in check_dup_removal(v, m):
+                acc.violation(sig, case, detail)
+            acc.case(None, True, sample=case, label='dup-sibling-removal', enumerated=True)
         return
     by_name = {}
     for v, m in message_cells():
@@ -390,6 +485,8 @@ def run_shard(shard, acc):
 def replay_case(case):
     if case.get('kind') == 'dup-required':
         return check_dup_required(case['v'], case['m'])
+    if case.get('kind') == 'dup-removal':
+        return check_dup_removal(case['v'], case['m'])
     return check(case)
 
 
